@@ -207,3 +207,47 @@ Example C20_seq_nonvacuous :
   fst (seq_run (cfg_of Defective 1) shared0 [] ops) = s.
 Proof. vm_compute. repeat split; reflexivity. Qed.
 Print Assumptions C20_seq_nonvacuous.
+
+(* ---------------------------------------------------------------- metric registration (registry.go) *)
+(* for EVERY interleaving of any number of Register{Counter,Gauge,Histogram} calls (either variant): all registrants
+   of one name that are told "ok" obtain the SAME metric object; it is the object the registry maps the name to (the one
+   AppendSnapshot / the tick walk), and it has the metric type and label schema each of them asked for.  Hence every
+   handle any goroutine obtains belongs to the one object snapshots see, and the conservation theorems above extend
+   over registration. *)
+Theorem C20_reg_unique : forall v os sched,
+  let x := rrun_sched v (rsys0 os) sched in
+  forall i j ti tj a b,
+    nth_error (rths x) i = Some ti -> nth_error (rths x) j = Some tj ->
+    ro_name (rt_opts ti) = ro_name (rt_opts tj) ->
+    rt_pc ti = RPDone (RROk a) -> rt_pc tj = RPDone (RROk b) ->
+    a = b /\ map_load (rmap (rsh x)) (ro_name (rt_opts ti)) = Some a /\
+    exists o, nth_error (robjs (rsh x)) a = Some o /\ rb_kind o = ro_kind (rt_opts ti) /\ rb_nl o = ro_nl (rt_opts ti).
+Proof. exact reg_unique. Qed.
+Print Assumptions C20_reg_unique.
+
+(* with fixes/C20_register_type_race.patch no interleaving of registrations panics *)
+Theorem C20_reg_no_panic : forall os sched,
+  let x := rrun_sched Repaired (rsys0 os) sched in
+  forall i th, nth_error (rths x) i = Some th -> rt_pc th <> RPDone RRPanic.
+Proof. exact reg_no_panic. Qed.
+Print Assumptions C20_reg_no_panic.
+
+(* today's code: RegisterCounter and RegisterGauge racing for one name; both miss the Load, the counter is published,
+   the gauge's LoadOrStore finds it and the unchecked type assertion panics *)
+Definition w3_opts : list ropts :=
+  [{| ro_name := 97%N; ro_kind := KCounter; ro_nl := 1 |}; {| ro_name := 97%N; ro_kind := KGauge; ro_nl := 1 |}].
+Theorem C20_reg_no_panic_refuted :
+  let x := rrun_sched Defective (rsys0 w3_opts) [0;1;0;1]%nat in
+  rdone_all x = true /\ map rt_pc (rths x) = [RPDone (RROk 0); RPDone RRPanic].
+Proof. vm_compute. split; reflexivity. Qed.
+Print Assumptions C20_reg_no_panic_refuted.
+
+Example C20_reg_nonvacuous :
+  let os := [{| ro_name := 97%N; ro_kind := KCounter; ro_nl := 1 |}; {| ro_name := 97%N; ro_kind := KCounter; ro_nl := 1 |};
+             {| ro_name := 97%N; ro_kind := KGauge; ro_nl := 1 |}; {| ro_name := 98%N; ro_kind := KCounter; ro_nl := 2 |}] in
+  let x := rrun_sched Repaired (rsys0 os) [0;1;2;3;1;0;2;3]%nat in
+  rdone_all x = true /\
+  map rt_pc (rths x) = [RPDone (RROk 0); RPDone (RROk 0); RPDone RRErrType; RPDone (RROk 1)] /\
+  rerrs (rsh x) = 1.
+Proof. vm_compute. repeat split; reflexivity. Qed.
+Print Assumptions C20_reg_nonvacuous.
